@@ -87,8 +87,9 @@ Section GoHtml.
   Definition go_html_escape (dst : list N) (cap : nat) (src : list N) : gores :=
     let pad := N.to_nat go_BufPaddingSize in
     if (cap - length dst <? length src + pad)%nat then
-      let c := (length src * 3 / 2 + pad)%nat in
-      if (c <? length dst)%nat then GoPanic     (* rt.GrowSlice: "growslice's newCap is smaller than old length" *)
+      (* cap := len(dst) + len(src)*3/2 + BufPaddingSize   (repaired by e1e5e27; len(dst) was missing before) *)
+      let c := (length dst + length src * 3 / 2 + pad)%nat in
+      if (c <? length dst)%nat then GoPanic     (* rt.GrowSlice panics when newCap is smaller than the old length *)
       else go_html_loop (go_html_fuel src) src dst (grow cap c)
     else go_html_loop (go_html_fuel src) src dst cap.
 End GoHtml.
